@@ -95,6 +95,9 @@ type Hist struct {
 	Restart    bool
 	ExtraTicks int
 	PermNodes  int // rotate the view's node order by this much
+	// SlotFlags are per-slot switches set by events (e.g. "descins-down": every DescribeInstances
+	// call of this slot's scan fails; those calls are issued in map order, so they are not choice points).
+	SlotFlags map[string]bool
 	PermPods   int
 
 	Lifetimes int // controller lifetimes started
@@ -126,6 +129,12 @@ func (h *Hist) Decide(op, target string) sim.Verdict {
 			return sim.OK
 		}
 	} else if !h.scanActive {
+		return sim.OK
+	}
+	if op == sim.OpDescribeIns {
+		if h.SlotFlags["descins-down"] {
+			return sim.Fail
+		}
 		return sim.OK
 	}
 	if !h.S.FaultOps[op] {
@@ -310,6 +319,7 @@ func Run(t *testing.T, s *Scenario, ch *explore.Chooser, after func(h *Hist)) {
 func (h *Hist) slot() {
 	s := h.S
 	h.Stale, h.SkipSettle, h.Restart, h.ExtraTicks, h.PermNodes, h.PermPods = false, false, false, 0, 0, 0
+	h.SlotFlags = map[string]bool{}
 	h.Trace = append(h.Trace, fmt.Sprintf("slot %d t=+%s", h.Slot, time.Since(h.T0)))
 	if s.Script != nil {
 		s.Script(h, h.Slot)
@@ -385,10 +395,22 @@ func (h *Hist) scan() {
 		ctx.Post = h.C.VerifDumpState()
 	}
 	tr := fmt.Sprintf("  scan %d:", w.Scan)
+	var lookups []string
 	for _, e := range ctx.Entries {
+		if e.Op == sim.OpDescribeIns {
+			// issued while ranging over a map: order is not deterministic, so they are listed sorted
+			if e.Err != "" {
+				lookups = append(lookups, shortEntry(e))
+			}
+			continue
+		}
 		if e.Write() || e.Err != "" {
 			tr += " " + shortEntry(e)
 		}
+	}
+	sort.Strings(lookups)
+	for _, l := range lookups {
+		tr += " " + l
 	}
 	if res.Err != nil {
 		tr += " => err: " + res.Err.Error()
